@@ -11,19 +11,22 @@ package codecs
 // ===== C16 (and the C08 clauses of the same functions): audio payloaders =====
 
 // fragsOf: every fragment out[j], j < n, is a fresh, non-nil byte slice of
-// exactly m bytes holding the input window [j*m, (j+1)*m).
-//@ pure bool fragsOf(out, n, src, m) = forall j :: 0 <= j && j < n ==> out[j] != nil && fresh(out[j]) && off(out[j]) == 0 && len(out[j]) == m && eqseq(out[j], 0, src, j*m, m)
+// exactly m bytes; fragBytes: it holds the input window [j*m, (j+1)*m).
+//@ pure bool fragsOf(out, n, src, m) = forall j :: 0 <= j && j < n ==> out[j] != nil && fresh(out[j]) && off(out[j]) == 0 && len(out[j]) == m
+//@ pure bool fragBytes(out, n, src, m) = forall j, q :: 0 <= j && j < n && 0 <= q && q < m ==> out[j][q] == src[j*m + q]
 
 //@ spec (*G711Payloader).Payload
 //@   ensures empty [C16,C08]: (mtu == 0 || payload == nil) ==> len(result0) == 0
 //@   ensures count [C16]: mtu > 0 && payload != nil ==> len(result0) >= 1
 //@   ensures full [C16,C08]: mtu > 0 && payload != nil ==> fragsOf(result0, len(result0) - 1, payload, int(mtu))
+//@   ensures full_bytes [C16,C08]: mtu > 0 && payload != nil ==> fragBytes(result0, len(result0) - 1, payload, int(mtu))
 //@   ensures last [C16,C08]: mtu > 0 && payload != nil ==> fresh(result0[len(result0)-1]) && len(result0[len(result0)-1]) == len(payload) - (len(result0)-1)*int(mtu) && eqseq(result0[len(result0)-1], 0, payload, (len(result0)-1)*int(mtu), len(result0[len(result0)-1]))
 //@   ensures last_bound [C16,C08]: mtu > 0 && payload != nil ==> len(result0[len(result0)-1]) <= int(mtu) && (len(payload) > 0 ==> len(result0[len(result0)-1]) >= 1)
 //@   ensures owned [C08]: fresh(result0)
 //@   loop 0: invariant consumed [C16,C08]: sameobj(payload, old(payload)) && off(payload) == off(old(payload)) + len(out)*int(mtu) && len(payload) == len(old(payload)) - len(out)*int(mtu) && len(payload) >= 0 && mtu > 0 && (len(old(payload)) > 0 ==> len(payload) > 0)
 //@   loop 0: invariant out_fresh [C16,C08]: fresh(out) && len(out) >= 0
 //@   loop 0: invariant frags [C16,C08]: fragsOf(out, len(out), old(payload), int(mtu))
+//@   loop 0: invariant frag_bytes [C16,C08]: fragBytes(out, len(out), old(payload), int(mtu))
 //@   loop 0: decreases len(payload)
 //@ end
 
@@ -31,12 +34,14 @@ package codecs
 //@   ensures empty [C16,C08]: (mtu == 0 || payload == nil) ==> len(result0) == 0
 //@   ensures count [C16]: mtu > 0 && payload != nil ==> len(result0) >= 1
 //@   ensures full [C16,C08]: mtu > 0 && payload != nil ==> fragsOf(result0, len(result0) - 1, payload, int(mtu))
+//@   ensures full_bytes [C16,C08]: mtu > 0 && payload != nil ==> fragBytes(result0, len(result0) - 1, payload, int(mtu))
 //@   ensures last [C16,C08]: mtu > 0 && payload != nil ==> fresh(result0[len(result0)-1]) && len(result0[len(result0)-1]) == len(payload) - (len(result0)-1)*int(mtu) && eqseq(result0[len(result0)-1], 0, payload, (len(result0)-1)*int(mtu), len(result0[len(result0)-1]))
 //@   ensures last_bound [C16,C08]: mtu > 0 && payload != nil ==> len(result0[len(result0)-1]) <= int(mtu) && (len(payload) > 0 ==> len(result0[len(result0)-1]) >= 1)
 //@   ensures owned [C08]: fresh(result0)
 //@   loop 0: invariant consumed [C16,C08]: sameobj(payload, old(payload)) && off(payload) == off(old(payload)) + len(out)*int(mtu) && len(payload) == len(old(payload)) - len(out)*int(mtu) && len(payload) >= 0 && mtu > 0 && (len(old(payload)) > 0 ==> len(payload) > 0)
 //@   loop 0: invariant out_fresh [C16,C08]: fresh(out) && len(out) >= 0
 //@   loop 0: invariant frags [C16,C08]: fragsOf(out, len(out), old(payload), int(mtu))
+//@   loop 0: invariant frag_bytes [C16,C08]: fragBytes(out, len(out), old(payload), int(mtu))
 //@   loop 0: decreases len(payload)
 //@ end
 
